@@ -411,25 +411,40 @@ def oracleUnpaired {F : Type} [FloatLike F] (conf : Confidence Float) (xs ys : L
   match exactStats xs, exactStats ys with
   | some ea, some eb =>
     if ea.n < 2 || eb.n < 2 || c.isNaN then ([], 1) else
-    let ka := ea.kappa; let kb := eb.kappa
     let va := ea.variance; let vb := eb.variance
-    -- conditioning domain (a constant sample has κ = ∞ but contributes variance 0 exactly: allow it)
-    let okA := va == 0.0 || ka * FloatLike.u F ≤ Float.scaleB 1.0 (-10)
-    let okB := vb == 0.0 || kb * FloatLike.u F ≤ Float.scaleB 1.0 (-10)
-    if !(okA && okB) || (va == 0.0 && vb == 0.0) then ([], 1) else
+    if va == 0.0 && vb == 0.0 then ([], 1) else
+    let u := FloatLike.u F
     let na := Float.ofNat ea.n; let nb := Float.ofNat eb.n
+    -- the one-pass variances carry absolute errors of a few u·Σx²/(n−1) (their conditioning)
+    let ea' := 16.0 * u * ea.sumSqF / (na - 1.0)
+    let eb' := 16.0 * u * eb.sumSqF / (nb - 1.0)
     let A := va / na; let B := vb / nb
+    let dA := ea' / na; let dB := eb' / nb
     let d := ea.mean - eb.mean
     let se := (A + B).sqrt
+    let seTol := if se > 0.0 && (dA + dB) / se < (dA + dB).sqrt then (dA + dB) / se else (dA + dB).sqrt
     let hw := c * se
-    let nu := (A + B) * (A + B) / (A * A / (na + 1.0) + B * B / (nb + 1.0)) - 2.0
-    let kk := fmax (if va == 0.0 then 0.0 else ka) (if vb == 0.0 then 0.0 else kb)
-    let tol := 32.0 * FloatLike.u F * (ea.meanAbs + eb.meanAbs + absF hw * (1.0 + kk)) + Float.scaleB 1.0 (-1060)
+    let dofAt (a b : Float) : Float := (a + b) * (a + b) / (a * a / (na + 1.0) + b * b / (nb + 1.0)) - 2.0
+    let nu := dofAt A B
+    -- the effective dof over the box of admissible variances: as a function of r = B/A it is
+    -- g(r) = (1+r)²/(1/(na+1) + r²/(nb+1)) − 2, increasing up to r* = (nb+1)/(na+1), decreasing after
+    let lo0 (x dx : Float) := if x - dx > 0.0 then x - dx else 0.0
+    let g (r : Float) : Float := (1.0 + r) * (1.0 + r) / (1.0 / (na + 1.0) + r * r / (nb + 1.0)) - 2.0
+    let rMin := lo0 B dB / (A + dA)
+    let aLow := lo0 A dA
+    let gMax := if aLow > 0.0 then g ((B + dB) / aLow) else nb - 1.0     -- r → ∞ : nb + 1 − 2
+    let rStar := (nb + 1.0) / (na + 1.0)
+    let inside := rMin ≤ rStar && (aLow == 0.0 || rStar ≤ (B + dB) / aLow)
+    let e1 := g rMin
+    let nuMin := if e1 < gMax then e1 else gMax
+    let nuMax := if inside then na + nb else (if e1 > gMax then e1 else gMax)
+    let tol := 32.0 * u * (ea.meanAbs + eb.meanAbs + absF hw) + absF c * seTol + Float.scaleB 1.0 (-1060)
     let lo := d - hw; let hi := d + hw
     let dofBad :=
       if dofModel.isNaN then [] else
-      if absF (dofModel - nu) ≤ 64.0 * FloatLike.u F * (1.0 + kk) * (absF nu + 2.0) + 1e-9 then []
-      else [s!"dof-off(model {dofModel} exact {nu})"]
+      let slack := 64.0 * u * (absF nu + 2.0) + 1e-9
+      if nuMin - slack ≤ dofModel && dofModel ≤ nuMax + slack then []
+      else [s!"dof-off(model {dofModel} exact {nu} admissible [{nuMin}, {nuMax}])"]
     let cs := (impl.take 6).foldl (fun (acc : List String × Nat) g =>
       let (cs, idx) := acc
       let bad (m : String) := (cs ++ [s!"style{idx}:{m}"], idx + 1)
